@@ -107,14 +107,15 @@ Proof.
     + exists ms, m. rewrite !find_add. destruct (N.eq_dec sid sid'); [congruence|auto].
 Qed.
 
-(* one storage changes: positions [ds] of it are destroyed, at most one fresh value comes in *)
-Lemma LJ_step stores G L used sid ms m ms' m' (ds : list (N * tok)) (newv : option (N * tok)) :
+(* one storage changes: positions [ds] of it are destroyed, at most one fresh
+   value comes in; a value that stays may change its payload, not its uid *)
+Lemma LJ_step_gen stores G L used sid ms m ms' m' (ds : list (N * tok)) (newv : option (N * tok)) :
   LJ stores G L used ->
   NM.find sid stores = Some ms -> NM.find sid G = Some m ->
   MInvP P ms' m' ->
   NoDup (map fst ds) -> (forall i t, In (i, t) ds -> own ms m i t) ->
   (forall i t, own ms' m' i t ->
-     (own ms m i t /\ ~ In i (map fst ds)) \/ newv = Some (i, t) \/ real (fst t) = false) ->
+     (exists t0, own ms m i t0 /\ fst t0 = fst t /\ ~ In i (map fst ds)) \/ newv = Some (i, t) \/ real (fst t) = false) ->
   (forall i t, newv = Some (i, t) -> real (fst t) = true -> ~ In (fst t) used) ->
   LJ (NM.add sid ms' stores) (NM.add sid m' G) (rev (map uid_of ds) ++ L)
      (match newv with Some (_, t) => fst t :: used | None => used end).
@@ -127,10 +128,11 @@ Proof.
   { intros u H. unfold used'. destruct newv as [[? ?]|]; [right|]; assumption. }
   (* what a value owned afterwards is *)
   assert (forall sid' i t, wown (NM.add sid ms' stores) (NM.add sid m' G) sid' i t -> real (fst t) = true ->
-            (wown stores G sid' i t /\ (sid' = sid -> ~ In i (map fst ds))) \/ (sid' = sid /\ newv = Some (i, t))) as Hcase.
+            (exists t0, fst t0 = fst t /\ wown stores G sid' i t0 /\ (sid' = sid -> ~ In i (map fst ds))) \/
+            (sid' = sid /\ newv = Some (i, t))) as Hcase.
   { intros sid' i t H R. apply wown_add in H. destruct H as [[-> H]|[Hne H]].
-    - destruct (Hkept i t H) as [[A B]|[A|A]]; [left; split; [apply Hw; assumption|intros _; assumption]|right; auto|congruence].
-    - left. split; [assumption|congruence]. }
+    - destruct (Hkept i t H) as [[t0 [A [E B]]]|[A|A]]; [left; exists t0; split; [assumption|split; [apply Hw; assumption|intros _; assumption]]|right; auto|congruence].
+    - left. exists t. split; [reflexivity|]. split; [assumption|congruence]. }
   (* uids of the destroyed positions *)
   assert (forall p, In p ds -> wown stores G sid (fst p) (snd p)) as Hds.
   { intros [i t] H. apply Hw. apply Hown. assumption. }
@@ -138,15 +140,16 @@ Proof.
   - intros sid'. rewrite !find_add. destruct (N.eq_dec sid sid'); [assumption|apply J1].
   - intros s1 i1 t1 s2 i2 t2 H1 H2 R E.
     assert (real (fst t2) = true) as R2 by (rewrite <- E; assumption).
-    destruct (Hcase _ _ _ H1 R) as [[A1 _]|[-> N1]]; destruct (Hcase _ _ _ H2 R2) as [[A2 _]|[-> N2]].
-    + apply (J2 _ _ _ _ _ _ A1 A2 R E).
-    + exfalso. apply (Hfresh _ _ N2 R2). rewrite <- E. apply (J5 _ _ _ A1 R).
-    + exfalso. apply (Hfresh _ _ N1 R). rewrite E. apply (J5 _ _ _ A2 R2).
+    destruct (Hcase _ _ _ H1 R) as [[a1 [E1 [A1 _]]]|[-> N1]]; destruct (Hcase _ _ _ H2 R2) as [[a2 [E2 [A2 _]]]|[-> N2]].
+    + apply (J2 _ _ _ _ _ _ A1 A2); [rewrite E1; assumption|congruence].
+    + exfalso. apply (Hfresh _ _ N2 R2). rewrite <- E, <- E1. apply (J5 _ _ _ A1). rewrite E1. assumption.
+    + exfalso. apply (Hfresh _ _ N1 R). rewrite E, <- E2. apply (J5 _ _ _ A2). rewrite E2. assumption.
     + rewrite N1 in N2. inversion N2. auto.
-  - intros s i t H R Hin. apply in_app_or in Hin. destruct (Hcase _ _ _ H R) as [[A B]|[-> N1]].
-    + destruct Hin as [Hin|Hin]; [|exact (J3 _ _ _ A R Hin)].
+  - intros s i t H R Hin. apply in_app_or in Hin. destruct (Hcase _ _ _ H R) as [[a [Ea [A B]]]|[-> N1]].
+    + assert (real (fst a) = true) as Ra by (rewrite Ea; assumption).
+      destruct Hin as [Hin|Hin]; [|rewrite <- Ea in Hin; exact (J3 _ _ _ A Ra Hin)].
       apply in_rev in Hin. apply in_map_iff in Hin. destruct Hin as [p [E Hp]].
-      destruct (J2 _ _ _ _ _ _ A (Hds p Hp) R (eq_sym E)) as [-> ->]. apply (B eq_refl). apply in_map. assumption.
+      destruct (J2 _ _ _ _ _ _ A (Hds p Hp) Ra) as [-> ->]; [unfold uid_of in E; congruence|]. apply (B eq_refl). apply in_map. assumption.
     + destruct Hin as [Hin|Hin].
       * apply in_rev in Hin. apply in_map_iff in Hin. destruct Hin as [p [E Hp]].
         apply (Hfresh _ _ N1 R). rewrite <- E. apply (J5 _ _ _ (Hds p Hp)). unfold uid_of in E. rewrite E. assumption.
@@ -155,10 +158,26 @@ Proof.
     + intros p q Hp Hq R E. destruct (J2 _ _ _ _ _ _ (Hds p Hp) (Hds q Hq) R E) as [_ ?]. assumption.
     + intros u Hin HL R. apply in_rev in Hin. apply in_map_iff in Hin. destruct Hin as [p [E Hp]]. subst u.
       exact (J3 _ _ _ (Hds p Hp) R HL).
-  - intros s i t H R. destruct (Hcase _ _ _ H R) as [[A _]|[-> N1]]; [apply Hsub; apply (J5 _ _ _ A R)|].
-    unfold used'. rewrite N1. left. reflexivity.
+  - intros s i t H R. destruct (Hcase _ _ _ H R) as [[a [Ea [A _]]]|[-> N1]].
+    + apply Hsub. rewrite <- Ea. apply (J5 _ _ _ A). rewrite Ea. assumption.
+    + unfold used'. rewrite N1. left. reflexivity.
   - intros u Hin R. apply in_app_or in Hin. apply Hsub. destruct Hin as [Hin|Hin]; [|apply J6; assumption].
     apply in_rev in Hin. apply in_map_iff in Hin. destruct Hin as [p [E Hp]]. subst u. apply (J5 _ _ _ (Hds p Hp) R).
+Qed.
+
+Lemma LJ_step stores G L used sid ms m ms' m' (ds : list (N * tok)) (newv : option (N * tok)) :
+  LJ stores G L used ->
+  NM.find sid stores = Some ms -> NM.find sid G = Some m ->
+  MInvP P ms' m' ->
+  NoDup (map fst ds) -> (forall i t, In (i, t) ds -> own ms m i t) ->
+  (forall i t, own ms' m' i t ->
+     (own ms m i t /\ ~ In i (map fst ds)) \/ newv = Some (i, t) \/ real (fst t) = false) ->
+  (forall i t, newv = Some (i, t) -> real (fst t) = true -> ~ In (fst t) used) ->
+  LJ (NM.add sid ms' stores) (NM.add sid m' G) (rev (map uid_of ds) ++ L)
+     (match newv with Some (_, t) => fst t :: used | None => used end).
+Proof.
+  intros HJ Hs Hg HM Hnd Hown Hkept Hfresh. apply (LJ_step_gen stores G L used sid ms m); auto.
+  intros i t Ho. destruct (Hkept i t Ho) as [[A B]|A]; [left; exists t; auto|right; assumption].
 Qed.
 
 (* a value that was never in the world is destroyed (a refused insert) *)
